@@ -12,6 +12,7 @@ import GrcVerif.Rules
 import GrcVerif.Precedence
 import GrcVerif.Check03
 import GrcVerif.SfntCheck
+import GrcVerif.GlyphAttr
 namespace Grc.Driver
 
 structure State where
@@ -269,6 +270,50 @@ def cmdC08 (st : State) (renamed : Bool) : List String :=
     else all.map (fun m => s!"FAIL {m}") ++ ["done"]
   | _, _ => ["error no font", "done"]
 
+/-- C05: glyph attribute matrix of the real font against the specification's winner per (glyph, attribute). -/
+def cmdC05 (st : State) : Except String (List String) := do
+  let silf ← getSilf st
+  let (gloc, glat) ← getGlat st
+  let some ga := st.ir.gattr | throw "IR has no gattr section"
+  let mut out : List String := []
+  let n := silf.maxGlyphID + 1
+  -- recover attribute ids from the marker glyph
+  let mg := glat.glyphs.getD ga.marker default
+  let mut ids : Array Nat := #[]
+  for j in [0:ga.numAttrs] do
+    let want := ga.markerBase + j
+    let cands := mg.attrs.toList.filter (fun (_, v) => v == want)
+    match cands with
+    | [(a, _)] => ids := ids.push a
+    | _ => out := out ++ [s!"FAIL marker glyph {ga.marker}: attribute {j} (marker value {want}) found {cands.length} times"]; ids := ids.push 100000
+  let bwId := silf.attrBreakWeight
+  let mut cells := 0
+  let mut nonDefault := 0
+  for g in [0:n] do
+    let gat := glat.glyphs.getD g default
+    let mine := fun (attr : Nat) =>
+      ((ga.assigns.filter (fun a => a.attr == attr ∧ (st.ir.classes.getD a.cls []).contains g)).mergeSort (fun a b => a.order ≤ b.order)).map
+        (fun a => ({ line := a.line, override := a.override, value := a.value } : GA.Asg))
+    for j in [0:ga.numAttrs] do
+      if g != ga.marker then
+        let want : Int := match GA.specWinner (mine j) with | some w => w.value | none => 0
+        let got := gat.get (ids.getD j 100000)
+        cells := cells + 1
+        if want != 0 then nonDefault := nonDefault + 1
+        if got != want then out := out ++ [s!"FAIL glyph {g} attribute ua{j} (id {ids.getD j 0}): font has {got}, glyph table denotes {want}"]
+    -- breakweight: explicit winner, else documented default (letter = 30, white space = 15 for format >= 2)
+    let wantBw : Int := match GA.specWinner (mine 1000) with
+      | some w => w.value
+      | none => if ga.spaceGlyphs.contains g then 15 else 30
+    let gotBw := gat.get bwId
+    cells := cells + 1
+    if gotBw != wantBw then out := out ++ [s!"FAIL glyph {g} breakweight (id {bwId}): font has {gotBw}, glyph table denotes {wantBw}"]
+    -- only non-zero values are stored
+    for (a, v) in gat.attrs do
+      if v == 0 then out := out ++ [s!"FAIL glyph {g}: zero value stored for attribute {a}"]
+  if out.isEmpty then return [s!"ok cells={cells} nonDefault={nonDefault} numAttrs={gloc.numAttrs} glatVersion={glat.version}", "done"]
+  return out ++ ["done"]
+
 def step (st : State) (toks : List String) : IO (State × List String) := do
   match toks with
   | [] => return (st, [])
@@ -332,6 +377,10 @@ def step (st : State) (toks : List String) : IO (State × List String) := do
     | .error e => return (st, [s!"error {e}", "done"])
   | ["c04"] =>
     match cmdC04 st with
+    | .ok ls => return (st, ls)
+    | .error e => return (st, [s!"error {e}", "done"])
+  | ["c05"] =>
+    match cmdC05 st with
     | .ok ls => return (st, ls)
     | .error e => return (st, [s!"error {e}", "done"])
   | ["c06"] =>
